@@ -681,6 +681,22 @@ func (x *Exec) callDynamic(fr *Frame, st *State, cc *ssa.CallCommon, fv *Term, a
 		return x.callUnknownCallback(fr, st, name, args, in, rt)
 	}
 	x.assert(st, "nil", "call of nil function "+x.src(in), mkNot(mkEq(fv, mkInt(0))), pos, nil)
+	// call-site clauses of the caller for a call through a value of a named function type
+	// ("callsite dyn:<TypeName> requires ..."; arguments by parameter name, or arg0, arg1, ...)
+	if nt, ok := types.Unalias(cc.Value.Type()).(*types.Named); ok {
+		if sig, ok := nt.Underlying().(*types.Signature); ok {
+			params := map[string]cvar{}
+			for i := 0; i < sig.Params().Len() && i < len(args); i++ {
+				n := sig.Params().At(i).Name()
+				if n == "" || n == "_" {
+					n = fmt.Sprintf("arg%d", i)
+				}
+				params[n] = cvar{v: args[i], t: sig.Params().At(i).Type()}
+				params[fmt.Sprintf("arg%d", i)] = cvar{v: args[i], t: sig.Params().At(i).Type()}
+			}
+			x.callSiteAssertsArgs(fr, st, "dyn:"+nt.Obj().Name(), in, params)
+		}
+	}
 	x.havocUnknown(st, "dynamic call "+x.src(in))
 	return x.freshResult(st, rt)
 }
